@@ -189,6 +189,20 @@ def c07(ck):
         n += 1
         lines.append("%s client %s | new new %s" % (cid, hx(b"".join(fr(x) for x in inbox)), " ".join(ops)))
         meta[cid] = ("drain", inbox, ops)
+    # (b'') call objects that go out of scope: a stream abandoned after j of its replies, then other calls on the connection
+    for i in range(40 if quick else 400):
+        nrep = rng.randint(1, 5)
+        items = [{"continues": True, "parameters": {"i": j}} for j in range(nrep)] + [{"parameters": {"i": nrep}}]
+        taken = rng.randint(0, nrep + 1)
+        inbox = items + [{"parameters": {"second": 1}}, {"parameters": {"third": 1}}]
+        first = rng.choice(["more:0", "more:0", "call:0", "oneway:0"]) if i % 4 else "more:0"
+        ops = [first] + (["next:0"] * taken if first == "more:0" else []) + ["drop:0"]
+        for _ in range(rng.randint(1, 4)):
+            ops.append("%s:%d" % (rng.choice(["call", "more", "next", "oneway", "recv"]), rng.randint(1, 3)))
+        cid = "a%d" % n
+        n += 1
+        lines.append("%s client %s | new new new new %s" % (cid, hx(b"".join(fr(x) for x in inbox)), " ".join(ops)))
+        meta[cid] = ("abandon", inbox, ops)
     impl, model = run_client_cases(ck, lines, model_ok)
     nd = 0
     for cid, m in meta.items():
@@ -232,6 +246,21 @@ def c07(ck):
                                             "connection with the call; the final one gives it back so that the next call goes through)",
                                     "reply_stream": inbox, "ops": m[2], "first_difference_at_op": k, "got": [list(o) for o in outs[k:k + 2]],
                                     "expected": [list(o) for o in exp[k:k + 2]], "idle_at_end": f.get("idle")})
+        elif kind == "abandon":
+            inbox, ops = m[1], m[2]
+            d = ops.index("drop:0")
+            nrep = len(inbox) - 2
+            complete = not ops[0].startswith("more") or (d - 1) >= nrep
+            # the stream was abandoned with replies outstanding: afterwards nobody may be handed a reply and nothing may be written
+            if not complete:
+                later = outs[d + 1:]
+                handed = [list(o) for o in later if o[0] == "ok"]
+                n_sent_before = 1
+                if handed or len(sent) != n_sent_before or f.get("idle") != "0":
+                    ck.failures.append({"what": "a call object that still had replies outstanding went out of scope; afterwards another call on the connection was handed a "
+                                                "reply / wrote its request (the outstanding replies belong to nobody else; the connection must stay busy)",
+                                        "reply_stream": inbox, "ops": ops, "outs": [list(o) for o in outs], "requests_written": [s_.get("method") for s_ in sent],
+                                        "idle_at_end": f.get("idle")})
         elif kind == "seq":
             ops = m[2]
             # writes: exactly one request per send that did not fail with busy / called-already, in order
